@@ -82,6 +82,9 @@ pub struct OpE {
     pub kind: OpKindE,
     /// abort the caller (drop the response receiver) this many ms after the call
     pub drop_after_ms: Option<u64>,
+    /// clock skew of the calling client (ms): its request timestamps are offset by this much
+    #[serde(default)]
+    pub skew_ms: i64,
 }
 
 #[derive(Clone, Debug, Serialize, Deserialize)]
@@ -186,9 +189,9 @@ fn bal_sum(b: &AssetBalance<AssetNameExchange>) -> (String, Decimal, Decimal) {
     (b.asset.name().to_string(), b.balance.total, b.balance.free)
 }
 
-fn mk_clock(start: tokio::time::Instant, op: i64) -> impl Fn() -> DateTime<Utc> + Clone + Sync + Send {
-    // virtual time in ms, with the operation id in the microsecond digits (request tag)
-    move || ts(start.elapsed().as_millis() as i64) + chrono::TimeDelta::microseconds(op)
+fn mk_clock(start: tokio::time::Instant, op: i64, skew_ms: i64) -> impl Fn() -> DateTime<Utc> + Clone + Sync + Send {
+    // (skewed) virtual time in ms, with the operation id in the microsecond digits (request tag)
+    move || ts(start.elapsed().as_millis() as i64 + skew_ms) + chrono::TimeDelta::microseconds(op)
 }
 
 fn inst_name(i: usize) -> String {
@@ -380,7 +383,7 @@ fn judge(sc: &ScenarioE, obs: &Obs, sell_spends_quote: bool, stats: Option<&mut 
                         .filter(|o| {
                             // exchange time of a fill = request time (+ op tag in the microsecond
                             // digits) + half the configured latency
-                            let t_fill_us = (sc.ops[*o].at_ms + sc.latency_ms / 2) as i64 * 1000 + *o as i64;
+                            let t_fill_us = ((sc.ops[*o].at_ms + sc.latency_ms / 2) as i64 + sc.ops[*o].skew_ms) * 1000 + *o as i64;
                             t_fill_us >= since_ms * 1000
                         })
                         .collect();
@@ -546,7 +549,7 @@ impl Sim for SimE {
             let kind = match rng.below(10) {
                 0 => OpKindE::FetchBalances,
                 1 => OpKindE::FetchTrades {
-                    since_ms: rng.range(0, t as i64 + 5),
+                    since_ms: if sub == 1 && rng.chance(1, 3) { rng.range(0, 60) } else { rng.range(0, t as i64 + 5) },
                 },
                 2 => OpKindE::Snapshot,
                 3 if sub == 1 => OpKindE::Cancel,
@@ -590,6 +593,9 @@ impl Sim for SimE {
                 } else {
                     None
                 },
+                // clock skew between clients: request (and so fill) timestamps are not monotonic in
+                // the exchange's acceptance order
+                skew_ms: if sub == 1 && rng.chance(1, 4) { *rng.pick(&[-3i64, 5, 40, 5_000]) } else { 0 },
             });
         }
         let n_cons = 1 + rng.usize(3);
@@ -653,10 +659,10 @@ impl Sim for SimE {
 
             let client_tx_for_clients = client_tx.clone();
             drop(client_tx);
-            let mk_client = move |op: i64| {
+            let mk_client = move |op: i64, skew_ms: i64| {
                 <MockExecution<_> as ExecutionClient>::new(MockExecutionClientConfig {
                     mocked_exchange: EX,
-                    clock: mk_clock(start, op),
+                    clock: mk_clock(start, op, skew_ms),
                     request_tx: client_tx_for_clients.clone(),
                     event_rx: event_rx.resubscribe(),
                 })
@@ -665,7 +671,7 @@ impl Sim for SimE {
             // stream consumers
             let mut consumer_handles = Vec::new();
             for lagging in &sc.consumers_lagging {
-                let c = mk_client(999);
+                let c = mk_client(999, 0);
                 let lagging = *lagging;
                 consumer_handles.push(tokio::spawn(async move {
                     let mut stream = c.account_stream(&[], &[]).await.expect("stream");
@@ -696,7 +702,7 @@ impl Sim for SimE {
             let results: Arc<Mutex<BTreeMap<usize, (u64, OpResult)>>> = Arc::new(Mutex::new(BTreeMap::new()));
             let mut op_handles = Vec::new();
             for (k, op) in sc.ops.iter().enumerate().take(990) {
-                let c = mk_client(k as i64);
+                let c = mk_client(k as i64, op.skew_ms);
                 let kind = op.kind.clone();
                 let at = op.at_ms;
                 let results = results.clone();
@@ -808,9 +814,9 @@ impl Sim for SimE {
             tokio::time::sleep(Duration::from_millis(2 * sc.latency_ms + 5)).await;
             // final reads by the simulator
             let (final_balances, final_trades) = if sc.kill_exchange_at.is_none() {
-                let c = mk_client(998);
+                let c = mk_client(998, 0);
                 let fb = c.fetch_balances().await.ok().map(|v| v.iter().map(bal_sum).collect::<Vec<_>>());
-                let ft = c.fetch_trades(ts(0)).await.ok().map(|v| v.iter().map(trade_sum).collect::<Vec<_>>());
+                let ft = c.fetch_trades(ts(-3_600_000)).await.ok().map(|v| v.iter().map(trade_sum).collect::<Vec<_>>());
                 (fb, ft)
             } else {
                 (None, None)
@@ -900,6 +906,9 @@ impl Sim for SimE {
         }
         if sc.capacity < 1024 {
             stats.fault("small_broadcast_capacity");
+        }
+        if sc.ops.iter().any(|o| o.skew_ms != 0) {
+            stats.fault("client_clock_skew");
         }
         // concurrency probe: two operations outstanding at the same time
         let mut spans: Vec<(u64, u64)> = sc.ops.iter().enumerate().filter_map(|(k, o)| obs.results.get(&k).map(|r| (o.at_ms, r.0))).collect();
@@ -996,6 +1005,11 @@ impl Sim for SimE {
                 s.ops[k].drop_after_ms = None;
                 out.push(s);
             }
+            if o.skew_ms != 0 {
+                let mut s = sc.clone();
+                s.ops[k].skew_ms = 0;
+                out.push(s);
+            }
         }
         out
     }
@@ -1025,6 +1039,7 @@ impl Sim for SimE {
             "small_broadcast_capacity",
             "response_receiver_dropped",
             "exchange_shutdown",
+            "client_clock_skew",
         ]
     }
     fn probe_kinds(&self) -> Vec<&'static str> {
